@@ -19,6 +19,7 @@ import itertools
 
 from ..cfg import ENTRY, EXIT
 from ..effects import FS_WRITE
+from ..flow import Defs, Scope, bool_atoms, bool_eval, guard_facts, inline_predicates, iterations, reordered
 from ..loader import AnalysisError, FuncInfo, dotted, norm, walk_no_nested
 from ..report import Ctx
 from ..selftest import Mutant
@@ -48,188 +49,204 @@ ASYNC_ONLY = {
 }
 
 
-def _calls_seq(fn: FuncInfo) -> list[str]:
-    out = []
-    for c in [c for c in walk_no_nested(fn.node) if isinstance(c, ast.Call)]:
-        name = dotted(c.func)
-        if not name or name in ("isinstance", "len", "tuple", "list") or name.startswith(("outputs.", "asyncio.wrap")):
+IGNORED_CALLEES = {"isinstance", "len", "tuple", "list", "append", "extend", "enumerate", "zip", "range", "dict", "set", "items", "values", "keys", "get"}
+
+
+def _direct(ctx: Ctx, fn: FuncInfo) -> tuple[set[str], dict[str, FuncInfo]]:
+    names, impl = set(), {}
+    for c in [c for c in ast.walk(fn.node) if isinstance(c, ast.Call)]:
+        name = dotted(c.func).rsplit(".", 1)[-1] if dotted(c.func) else (c.func.attr if isinstance(c.func, ast.Attribute) else "")
+        if not name or name in IGNORED_CALLEES or name in {k.rsplit(".", 1)[-1] for k in ASYNC_ONLY}:
             continue
-        args = [norm(a) for a in c.args] + [f"{k.arg}={norm(k.value)}" for k in c.keywords]
-        out.append(f"{name}({', '.join(args)})")
+        for callee in ctx.cg.resolve_callable(fn, c.func):
+            if callee.module.name == fn.module.name and callee.name.startswith("_"):
+                impl[name] = callee
+        names.add(name)
+    return names, impl
+
+
+def _canon(name: str) -> str:
+    name = name[:-6] if name.endswith("_async") else name
+    return "RESOLVE" if name in ("gather", "_result", "wrap_future", "run_in_executor", "result") else name
+
+
+def _callees(ctx: Ctx, fn: FuncInfo, other: FuncInfo) -> set[str]:
+    """Canonical names of the steps `fn` performs; a private helper that the sibling does not call is expanded one level."""
+    mine, impl = _direct(ctx, fn)
+    theirs = {_canon(n) for n in _direct(ctx, other)[0]}
+    out = set()
+    for n in mine:
+        if _canon(n) not in theirs and n in impl and _canon(n) != "RESOLVE":
+            out |= {_canon(x) for x in _direct(ctx, impl[n])[0]}
+        else:
+            out.add(_canon(n))
     return out
 
 
-def _normalise(seq: list[str]) -> list[str]:
-    out = []
-    for s in seq:
-        if any(s.startswith(k + "(") for k in ASYNC_ONLY):
-            continue
-        s = s.replace("_async(", "(").replace(", loop)", ")").replace("multi_run_manager=multi_run_manager", "").replace(", )", ")")
-        if s.startswith(("asyncio.gather(", "_result(")):
-            s = "RESOLVE-ALL"
-        out.append(s)
-    # collapse adjacent duplicates of RESOLVE-ALL (gather + per-future wrap)
-    return [k for k, _ in itertools.groupby(out)]
-
-
-def check(ctx: Ctx) -> None:  # noqa: C901, PLR0912, PLR0915
-    P, cg = ctx.prog, ctx.cg
-    # ------------------------------------------------------------ 1 mirror
+def rule_mirror(ctx: Ctx) -> None:
+    P = ctx.prog
     for a, b in PAIRS:
         fa, fb = P.func(f"{RUN}.{a}"), P.func(f"{RUN}.{b}")
-        sa, sb = _normalise(_calls_seq(fa)), _normalise(_calls_seq(fb))
-        ok = sa == sb
-        diff = [x for x in sa if x not in sb] + [x for x in sb if x not in sa]
-        ctx.add("1-mirror", fb, fb.node, ok, f"{b} mirrors {a} ({len(sa)} effectful calls)" if ok else f"{b} differs from {a}: {diff[:3]}", key=f"mirror {a}")
+        sa, sb = _callees(ctx, fa, fb), _callees(ctx, fb, fa)
+        diff = sa ^ sb
+        ctx.add("1-mirror", fb, fb.node, not diff, f"{b} uses the same steps as {a} ({len(sa)} callees)" if not diff else f"{b} and {a} do not perform the same steps: {sorted(diff)} on one side only", key=f"mirror {a}")
         ok = isinstance(fb.node, ast.AsyncFunctionDef) and not isinstance(fa.node, ast.AsyncFunctionDef)
         ctx.add("1-mirror", fb, fb.node, ok, "async def / def" if ok else "the pair is no longer (def, async def)", key=f"kinds {a}")
     rm, rma = P.func(f"{RUN}.run_map"), P.func(f"{RUN}.run_map_async")
     inner = P.func(f"{RUN}.run_map_async._run_pipeline")
 
-    def prep_kwargs(fn: FuncInfo) -> dict[str, str]:
-        c = [c for c in ast.walk(fn.node) if isinstance(c, ast.Call) and dotted(c.func) == "prepare_run"]
-        if not c:
-            raise AnalysisError(f"{fn.qualname}: prepare_run call not found")
-        return {k.arg: norm(k.value) for k in c[0].keywords if k.arg}
-
-    ks, ka = prep_kwargs(rm), prep_kwargs(rma)
-    allowed = {"parallel": ("parallel", "True"), "in_async": ("False", "True")}
-    bad = [k for k in sorted(set(ks) | set(ka)) if ks.get(k) != ka.get(k) and (ks.get(k), ka.get(k)) != allowed.get(k)]
-    ident = [k for k, v in ks.items() if k not in allowed and v != k]
-    ok = not bad and not ident and set(ks) == set(ka)
-    ctx.add("1-mirror", rma, rma.node, ok, f"both drivers forward the same {len(ks)} arguments to prepare_run (only parallel / in_async differ)" if ok else f"prepare_run is called differently by the two drivers: {bad or ident}", key="prepare-args")
-    sig_s = [p for p in rm.param_names()]
-    sig_a = [p for p in rma.param_names()]
-    ok = [p for p in sig_s if p != "parallel"] == sig_a
-    ctx.add("1-mirror", rma, rma.node, ok, "same public parameters (async has no `parallel`)" if ok else f"parameter lists differ: {set(sig_s) ^ set(sig_a)}", key="signature")
-
-    def gen_call(fn: FuncInfo, name: str) -> dict[str, str]:
+    def call_kwargs(fn: FuncInfo, name: str) -> dict[str, str] | None:
         c = [c for c in ast.walk(fn.node) if isinstance(c, ast.Call) and dotted(c.func) == name]
         if not c:
-            raise AnalysisError(f"{fn.qualname}: call of {name} not found")
-        return {k.arg: norm(k.value) for k in c[0].keywords if k.arg}
+            return None
+        d = Defs(fn)
+        return {k.arg: norm(d.resolve(k.value)) for k in c[0].keywords if k.arg}
 
-    gs, ga = gen_call(rm, "_run_and_process_generation"), gen_call(inner, "_run_and_process_generation_async")
-    ga.pop("multi_run_manager", None)
-    ok = gs == ga and gs.get("generation") == "gen" and gs.get("cache") == "pipeline.cache" and gs.get("fixed_indices") == "fixed_indices"
-    ctx.add("1-mirror", inner, inner.node, ok, "both generation loops pass the same arguments" if ok else f"generation calls differ: {sorted(set(gs.items()) ^ set(ga.items()))}", key="generation-args")
-    for fn in (rm, inner):
-        loops = [lp for lp in walk_no_nested(fn.node) if isinstance(lp, ast.For) and "function_lists" in norm(lp.iter)]
-        ok = bool(loops) and norm(loops[0].iter) == "pipeline.topological_generations.function_lists"
-        ctx.add("1-mirror", fn, loops[0] if loops else fn.node, ok, "iterates the topological generations of the (restricted) pipeline" if ok else "the driver no longer iterates pipeline.topological_generations.function_lists", key="generations")
-        rets = [r for r in walk_no_nested(fn.node) if isinstance(r, ast.Return)]
-        ok = bool(rets) and norm(rets[-1].value) == "outputs"
-        ctx.add("1-mirror", fn, rets[-1] if rets else fn.node, ok, "returns the collected outputs" if ok else "driver return value changed", key="returns-outputs")
+    ks, ka = call_kwargs(rm, "prepare_run"), call_kwargs(rma, "prepare_run")
+    if ks is not None and ka is not None:
+        allowed = {"parallel": ("parallel", "True"), "in_async": ("False", "True")}
+        bad = [k for k in sorted(set(ks) | set(ka)) if ks.get(k) != ka.get(k) and (ks.get(k), ka.get(k)) != allowed.get(k)]
+        ctx.add("1-mirror", rma, rma.node, not bad, f"both drivers forward the same {len(ks)} arguments to prepare_run (only parallel / in_async differ)" if not bad else
+                f"prepare_run is called differently by the two drivers: {[(k, ks.get(k), ka.get(k)) for k in bad]}", key="prepare-args")
+    else:
+        ctx.add("1-mirror", rma, rma.node, None, "UNDECIDED: prepare_run call not found in both drivers", key="prepare-args")
+    sig_s, sig_a = rm.param_names(), rma.param_names()
+    ok = [p_ for p_ in sig_s if p_ != "parallel"] == sig_a
+    ctx.add("1-mirror", rma, rma.node, ok, "same public parameters (async has no `parallel`)" if ok else f"parameter lists differ: {set(sig_s) ^ set(sig_a)}", key="signature")
+    gs, ga = call_kwargs(rm, "_run_and_process_generation"), call_kwargs(inner, "_run_and_process_generation_async")
+    if gs is not None and ga is not None:
+        ga.pop("multi_run_manager", None)
+        ctx.add("1-mirror", inner, inner.node, gs == ga, "both generation loops pass the same arguments" if gs == ga else f"generation calls differ: {sorted(set(gs.items()) ^ set(ga.items()))}", key="generation-args")
 
-    # ------------------------------------------------------------ 2 barrier
+
+def _whole_in_order(it: dict, d: Defs) -> bool | None:
+    """True: the iteration source is taken whole and in order; False: sliced / filtered / re-ordered; None: unknown."""
+    src = d.resolve(it["iter"])
+    if reordered(src) or isinstance(src, ast.Subscript) and isinstance(src.slice, ast.Slice) or it["filters"]:
+        return False
+    if any(w in norm(src) for w in ("as_completed", "wait(")):
+        return False
+    return True
+
+
+def rule_barrier(ctx: Ctx) -> None:  # noqa: C901
+    P = ctx.prog
+    inner = P.func(f"{RUN}.run_map_async._run_pipeline")
     for a in ("_run_and_process_generation", "_run_and_process_generation_async"):
         f = P.func(f"{RUN}.{a}")
         cfg = ctx.cfg(f)
-        sub = cfg.nodes(lambda s: any(isinstance(c, ast.Call) and dotted(c.func) == "_submit_generation" for c in ast.walk(s)))
-        proc = set(cfg.nodes(lambda s: any(isinstance(c, ast.Call) and dotted(c.func).startswith("_process_generation") for c in ast.walk(s))))
-        ok = len(sub) == 1 and bool(proc) and cfg.must_pass(sub[0], EXIT, proc, normal_only=True)
-        if ok and a.endswith("_async"):
-            ok = all(isinstance(cfg.stmt[p], ast.Expr) and isinstance(cfg.stmt[p].value, ast.Await) for p in proc)
-        ctx.add("2-barrier", f, f.node, ok, "the whole generation is processed (awaited) after it was submitted" if ok else "a generation can be left unprocessed / un-awaited before the driver goes on", key="submit-then-process")
-    lp = [s for s in walk_no_nested(inner.node) if isinstance(s, ast.For)][0]
-    ok = any(isinstance(s, ast.Expr) and isinstance(s.value, ast.Await) and "_run_and_process_generation_async" in norm(s.value) for s in lp.body)
-    ctx.add("2-barrier", inner, lp, ok, "each generation is awaited inside the loop" if ok else "generations are started without awaiting the previous one", key="await-in-loop")
-    pt, pta = P.func(f"{RUN}._process_task"), P.func(f"{RUN}._process_task_async")
-    ok = "outputs_list = [_result(x) for x in r]" in norm(pt.node)
-    ctx.add("2-barrier", pt, pt.node, ok, "sync: every future of the function is resolved, in order" if ok else "sync path no longer resolves every future of `r` in order", key="resolve-all-sync")
-    ok = "futs = [_result_async(x, loop) for x in r]" in norm(pta.node) and "outputs_list = await asyncio.gather(*futs)" in norm(pta.node)
-    ctx.add("2-barrier", pta, pta.node, ok, "async: gather over all futures of the function (argument order)" if ok else "async path does not gather all futures of `r` in submission order", key="resolve-all-async")
-    pg = P.func(f"{RUN}._process_generation")
-    ok = "for func in generation" in norm(pg.node) and "tasks[func]" in norm(pg.node)
-    ctx.add("2-barrier", pg, pg.node, ok, "every function of the generation is processed" if ok else "_process_generation skips functions", key="all-funcs")
+        sub = cfg.nodes(lambda s: not isinstance(s, (ast.If, ast.For)) and any(isinstance(c, ast.Call) and dotted(c.func) == "_submit_generation" for c in ast.walk(s)))
+        proc = set(cfg.nodes(lambda s: not isinstance(s, (ast.If, ast.For)) and any(isinstance(c, ast.Call) and dotted(c.func).startswith("_process_generation") for c in ast.walk(s))))
+        if not sub:
+            ctx.add("2-barrier", f, f.node, None, "UNDECIDED: _submit_generation call not found", key=f"submit-then-process {a}")
+            continue
+        ok = bool(proc) and cfg.must_pass(sub[0], EXIT, proc, normal_only=True)
+        unawaited = [p_ for p_ in proc if a.endswith("_async") and not any(isinstance(x, ast.Await) for x in ast.walk(cfg.stmt[p_]))]
+        ctx.add("2-barrier", f, cfg.stmt[unawaited[0]] if unawaited else f.node, ok and not unawaited, "the whole generation is processed (awaited) after it was submitted" if ok and not unawaited else
+                "a generation can be left unprocessed / un-awaited before the driver goes on", key=f"submit-then-process {a}")
+    gen_calls = [c for c in ast.walk(inner.node) if isinstance(c, ast.Call) and dotted(c.func) == "_run_and_process_generation_async"]
+    par = {id(c): p for p in ast.walk(inner.node) for c in ast.iter_child_nodes(p)}
+    if gen_calls:
+        awaited = isinstance(par.get(id(gen_calls[0])), ast.Await)
+        ctx.add("2-barrier", inner, gen_calls[0], awaited, "each generation is awaited inside the loop" if awaited else "a generation is started without being awaited: the next generation reads results that are not there yet", key="await-in-loop")
+    for q, res in ((f"{RUN}._process_task", "_result"), (f"{RUN}._process_task_async", "_result_async")):
+        f = P.func(q)
+        d = Defs(f)
+        its = [it for it in iterations(f.node) if any(isinstance(c, ast.Call) and dotted(c.func) == res for c in ast.walk(getattr(it["node"], "elt", it["node"])))]
+        verdicts = [_whole_in_order(it, d) for it in its]
+        comp = [n for n in ast.walk(f.node) if isinstance(n, (ast.Name, ast.Attribute)) and (n.id if isinstance(n, ast.Name) else n.attr) in FORBIDDEN or (isinstance(n, ast.Attribute) and n.attr == "wait" and norm(n.value) == "asyncio")]
+        ctx.tri("2-barrier", f, (comp or [it["node"] for it in its] or [f.node])[0], bool(its) and all(v is True for v in verdicts) and not comp, any(v is False for v in verdicts) or bool(comp),
+                "every future of the function is resolved, in submission order", "the futures are resolved in part / in another order (completion order): results can be paired with the wrong index", "resolution of the futures not recognised", key=f"resolve-all {f.name}")
+    for q, what in ((f"{RUN}._process_generation", "processed"), (f"{RUN}._process_generation_async", "processed"), (f"{RUN}._submit_generation", "submitted")):
+        f = P.func(q)
+        gp = [p_ for p_ in f.param_names() if p_ == "generation"]
+        its = [it for it in iterations(f.node) if gp and any(isinstance(x, ast.Name) and x.id == gp[0] for x in ast.walk(it["iter"]))]
+        verdicts = [_whole_in_order(it, Defs(f)) for it in its]
+        ctx.tri("2-barrier", f, (its or [{"node": f.node}])[0]["node"], bool(its) and all(v is True for v in verdicts), any(v is False for v in verdicts),
+                f"every function of the generation is {what}", f"only part of the generation is {what} (sliced / filtered / re-ordered iteration)", "iteration over the generation not recognised", key=f"all-funcs {f.name}")
     mod = P.module(RUN)
     used = sorted({n.id if isinstance(n, ast.Name) else n.attr for n in ast.walk(mod.tree) if isinstance(n, (ast.Name, ast.Attribute)) and (n.id if isinstance(n, ast.Name) else n.attr) in FORBIDDEN}
                   | {n.attr for n in ast.walk(mod.tree) if isinstance(n, ast.Attribute) and n.attr == "wait" and norm(n.value) in ("asyncio", "concurrent.futures", "futures")})
     ctx.add("2-barrier", RUN, mod.relpath, not used, "no completion-order primitive in map/_run.py" if not used else f"completion-order primitive(s) {used} in map/_run.py: results can be paired with the wrong index", key="no-completion-order")
-    sg = P.func(f"{RUN}._submit_generation")
-    ok = "for func in generation" in norm(sg.node) and "_submit_func(func, run_info, store, fixed_indices, executor, progress, cache)" in norm(sg.node)
-    ctx.add("2-barrier", sg, sg.node, ok, "a generation submits each of its functions once" if ok else "_submit_generation changed", key="submit-each")
 
-    # ------------------------------------------------------------ 3 placement
-    sf = P.func(f"{RUN}._submit_func")
-    c = [c for c in ast.walk(sf.node) if isinstance(c, ast.Call) and dotted(c.func) == "_maybe_parallel_map"]
-    ok = bool(c) and norm(c[0].args[2]) == "args.missing"
-    ctx.add("3-placement", sf, c[0] if c else sf.node, ok, "indices submitted = args.missing" if ok else "the submitted index list is not args.missing", key="submitted")
+
+def rule_placement(ctx: Ctx) -> None:
+    P = ctx.prog
+    mod = P.module(RUN)
     ot = P.func(f"{RUN}._output_from_mapspec_task")
-    z = [c for c in ast.walk(ot.node) if isinstance(c, ast.Call) and dotted(c.func) == "zip" and len(c.args) == 2 and "outputs_list" in norm(c.args[1])]
-    ok = bool(z) and norm(z[0].args[0]) == "args.missing"
-    ctx.add("3-placement", ot, z[0] if z else ot.node, ok, "results are zipped with the same args.missing" if ok else "results are paired with something other than the submitted index list", key="zipped")
+    d = Defs(ot)
+    z = [c for c in ast.walk(ot.node) if isinstance(c, ast.Call) and dotted(c.func) == "zip" and len(c.args) == 2 and ("outputs_list" in norm(c.args[1]) or norm(c.args[1]) in ot.param_names())]
+    if z:
+        first = d.resolve(z[0].args[0])
+        t = norm(first)
+        ctx.tri("3-placement", ot, z[0], t.endswith(".missing") and not reordered(first), reordered(first) or t.endswith(".existing") or t.startswith("range("),
+                "results are zipped with the submitted index list (args.missing)", f"results are paired with `{t[:50]}`, not with the submitted index list in its order: outputs land at the wrong indices", f"paired with `{t[:40]}`", key="zipped")
     muts = []
     for fn in P.functions_in(RUN):
         for n in walk_no_nested(fn.node):
             if isinstance(n, ast.Call) and isinstance(n.func, ast.Attribute) and n.func.attr in ("sort", "reverse", "pop", "remove", "append", "extend", "insert", "clear") and norm(n.func.value).endswith(("args.missing", ".missing")):
                 muts.append(f"{fn.name}:{n.lineno}")
-            if isinstance(n, ast.Call) and dotted(n.func) in ("sorted", "reversed", "set") and n.args and norm(n.args[0]).endswith("args.missing"):
-                muts.append(f"{fn.name}:{n.lineno}")
-    ctx.add("3-placement", RUN, mod.relpath, not muts, "args.missing is never mutated or reordered" if not muts else f"args.missing is mutated/reordered at {muts}", key="missing-immutable")
+    ctx.add("3-placement", RUN, mod.relpath, not muts, "args.missing is never mutated after submission" if not muts else f"args.missing is mutated at {muts}", key="missing-immutable")
     mpm = P.func(f"{RUN}._maybe_parallel_map")
-    rets = [norm(r.value) for r in walk_no_nested(mpm.node) if isinstance(r, ast.Return)]
-    ok = rets == ["[_submit(process_index, ex, status, progress, i) for i in indices]", "[process_index(i) for i in indices]"]
-    ctx.add("3-placement", mpm, mpm.node, ok, "one task per index, in index-list order, parallel and sequential alike" if ok else f"_maybe_parallel_map returns {rets}", key="task-order")
-    ura = P.func(f"{RUN}._update_result_array")
-    ok = "result_array[index] = _output" in norm(ura.node) and "_set_output(result_array, _output, index, shape, mask)" in norm(ura.node)
-    ctx.add("3-placement", ura, ura.node, ok, "each result is stored at its own linear index" if ok else "_update_result_array no longer places by the paired index", key="place-by-index")
-    ok = "_update_result_array(args.result_arrays, index, outputs, args.shape, args.mask)" in norm(ot.node) and "_update_array(func, arrays, args.shape, args.mask, index, outputs, in_post_process=True)" in norm(ot.node)
-    ctx.add("3-placement", ot, ot.node, ok, "the paired index is used for both the returned array and the storage" if ok else "returned array and storage are updated with different indices", key="same-index-both")
+    ip = [p_ for p_ in mpm.param_names() if p_ == "indices"]
+    its = [it for it in iterations(mpm.node) if ip and any(isinstance(x, ast.Name) and x.id == ip[0] for x in ast.walk(it["iter"]))]
+    verdicts = [_whole_in_order(it, Defs(mpm)) for it in its]
+    ctx.tri("3-placement", mpm, (its or [{"node": mpm.node}])[0]["node"], len(its) >= 2 and all(v is True for v in verdicts), any(v is False for v in verdicts),
+            "one task per index, in index-list order, parallel and sequential alike", "tasks are created for part of the indices / in another order than the index list: results are paired with the wrong index", "task creation not recognised", key="task-order")
 
-    # ------------------------------------------------------------ 4 one-dump
+
+def rule_one_dump(ctx: Ctx) -> None:
+    P, cg = ctx.prog, ctx.cg
     ua = P.func(f"{RUN}._update_array")
-    guards = [s for s in ast.walk(ua.node) if isinstance(s, ast.If) and any(isinstance(c, ast.Call) and norm(c.func) == "array.dump" for c in ast.walk(s))]
-    if not guards:
-        raise AnalysisError("_update_array: dump guard not found")
-    g = guards[0]
-    dumps_in = any(isinstance(c, ast.Call) and norm(c.func) == "array.dump" for c in ast.walk(g))
-    names = sorted({norm(n) for n in ast.walk(g.test) if isinstance(n, (ast.Name, ast.Attribute)) and norm(n) in ("force_dump", "in_post_process", "array.dump_in_subprocess")})
+    cfg = ctx.cfg(ua)
+    dn = cfg.nodes(lambda s: not isinstance(s, (ast.If, ast.For)) and any(isinstance(c, ast.Call) and isinstance(c.func, ast.Attribute) and c.func.attr == "dump" for c in ast.walk(s)))
+    if not dn:
+        raise AnalysisError("_update_array: the element dump was not found")
+    ctrl = [(inline_predicates(ctx, ua, Defs(ua).resolve(t)), truth) for t, truth in cfg.controls(dn[0])]
+    ATOMS = ("force_dump", "in_post_process", "array.dump_in_subprocess")
 
-    def ev(e: ast.AST, env: dict[str, bool]) -> bool:
-        if isinstance(e, ast.BoolOp):
-            vals = [ev(v, env) for v in e.values]
-            return all(vals) if isinstance(e.op, ast.And) else any(vals)
-        if isinstance(e, ast.UnaryOp) and isinstance(e.op, ast.Not):
-            return not ev(e.operand, env)
-        if isinstance(e, ast.Compare) and len(e.ops) == 1 and isinstance(e.ops[0], (ast.Eq, ast.NotEq, ast.Is, ast.IsNot)):
-            l, r = ev(e.left, env), ev(e.comparators[0], env)
-            return (l == r) if isinstance(e.ops[0], (ast.Eq, ast.Is)) else (l != r)
-        if isinstance(e, ast.Constant):
-            return bool(e.value)
-        key = norm(e)
-        if key in env:
-            return env[key]
-        raise AnalysisError(f"_update_array: cannot evaluate `{key}` in the dump guard")
+    def dumps(env: dict[str, bool]) -> bool | None:
+        vals = [bool_eval(t, env) for t, _tr in ctrl]
+        if any(v is None for v in vals):
+            return None
+        return all(v == tr for v, (_t, tr) in zip(vals, ctrl))
 
-    rows = []
-    ok = dumps_in and set(names) == {"force_dump", "in_post_process", "array.dump_in_subprocess"}
-    if ok:
+    names = {a_ for t, _tr in ctrl for a_ in bool_atoms(t)}
+    flat = {n_ for t, _tr in ctrl for n_ in (norm(x) for x in ast.walk(t) if isinstance(x, (ast.Name, ast.Attribute)))}
+    if not (set(ATOMS) & flat):
+        ctx.add("4-one-dump", ua, cfg.stmt[dn[0]], None, f"UNDECIDED: the dump is controlled by {sorted(names)}, not by force_dump / in_post_process / dump_in_subprocess", key="guard-table")
+    else:
+        rows, ok, decided = [], True, True
         for dis in (True, False):
-            worker = ev(g.test, {"force_dump": False, "in_post_process": False, "array.dump_in_subprocess": dis})
-            parent = ev(g.test, {"force_dump": False, "in_post_process": True, "array.dump_in_subprocess": dis})
+            worker = dumps({"force_dump": False, "in_post_process": False, "array.dump_in_subprocess": dis})
+            parent = dumps({"force_dump": False, "in_post_process": True, "array.dump_in_subprocess": dis})
             rows.append((dis, worker, parent))
+            decided &= worker is not None and parent is not None
             ok &= (worker != parent) and (worker == dis)
         for dis, ipp in itertools.product((True, False), repeat=2):
-            ok &= ev(g.test, {"force_dump": True, "in_post_process": ipp, "array.dump_in_subprocess": dis})
-    ctx.add("4-one-dump", ua, g, ok, f"truth table (dump_in_subprocess, worker dumps, parent dumps) = {rows}: exactly one side dumps, the worker iff the storage is cross-process" if ok else
-            f"dump-ownership guard `{norm(g.test)}` lets an element be dumped twice or not at all: {rows}", key="guard-table")
-    sites = [s for s in cg.call_sites_of(f"{RUN}._update_array") if s.kind == "call"]
-    ctxs = sorted((s.caller.name, next((norm(k.value) for k in s.node.keywords if k.arg == "in_post_process"), "?")) for s in sites)
-    ok = ctxs == [("_output_from_mapspec_task", "True"), ("_run_iteration_and_process", "False")]
-    ctx.add("4-one-dump", ua, ua.node, ok, "two call contexts: worker (in_post_process=False) and parent (True)" if ok else f"call contexts of _update_array are {ctxs}", key="contexts")
+            v = dumps({"force_dump": True, "in_post_process": ipp, "array.dump_in_subprocess": dis})
+            decided &= v is not None
+            ok &= bool(v)
+        ctx.tri("4-one-dump", ua, cfg.stmt[dn[0]], decided and ok, decided and not ok, f"truth table (dump_in_subprocess, worker dumps, parent dumps) = {rows}: exactly one side dumps, the worker iff the storage is cross-process",
+                f"the dump-ownership condition lets an element be dumped twice or not at all: (dump_in_subprocess, worker dumps, parent dumps) = {rows}", "the controlling condition could not be evaluated", key="guard-table")
+    sites = [s_ for s_ in cg.call_sites_of(f"{RUN}._update_array") if s_.kind == "call"]
+    ctxs = sorted((s_.caller.name, next((norm(k.value) for k in s_.node.keywords if k.arg == "in_post_process"), "default")) for s_ in sites)
+    want = {"_output_from_mapspec_task": "True", "_run_iteration_and_process": "False"}
+    wrong = [(c_, v) for c_, v in ctxs if c_ in want and v != want[c_]]
+    ctx.tri("4-one-dump", ua, ua.node, not wrong and {c_ for c_, _v in ctxs} >= set(want), bool(wrong), "two call contexts: worker (in_post_process=False) and parent (True)",
+            f"{wrong}: the {'parent' if wrong and wrong[0][0] == '_output_from_mapspec_task' else 'worker'} context passes the wrong in_post_process flag: elements are dumped twice or never", f"call contexts {ctxs}", key="contexts")
     fd_true = []
     for fn in P.functions.values():
         for c in [c for c in walk_no_nested(fn.node) if isinstance(c, ast.Call)]:
             for k in c.keywords:
-                if k.arg == "force_dump" and not (isinstance(k.value, ast.Name) and k.value.id == "force_dump") and not (isinstance(k.value, ast.Constant) and k.value.value is False):
+                if k.arg == "force_dump" and isinstance(k.value, ast.Constant) and k.value.value is True:
                     fd_true.append(fn.qualname)
-    ok = fd_true == ["pipefunc.map.adaptive._execute_iteration_in_map_spec"]
-    ctx.add("4-one-dump", "force_dump", "", ok, "force_dump=True only from the learner path (which has no parent post-processing)" if ok else f"force_dump is forced from {fd_true}", key="force-dump-callers")
-    ok = "array.dump(output_key, _output)" in norm(ua.node) and "output_key = func.mapspec.output_key(external_shape, index)" in norm(ua.node) and "for array, _output in zip(arrays, outputs)" in norm(ua.node)
-    ctx.add("4-one-dump", ua, ua.node, ok, "each output array gets its own output at the key of this index" if ok else "_update_array pairs arrays/outputs/key differently", key="dump-pairing")
+    extra = [q for q in fd_true if not q.startswith("pipefunc.map.adaptive.")]
+    ctx.add("4-one-dump", "force_dump", "", not extra, "force_dump=True only from the learner path (which has no parent post-processing)" if not extra else f"force_dump is forced from {extra}: elements are dumped by the worker and again by the parent", key="force-dump-callers")
 
-    # ------------------------------------------------------------ 5 shared
+
+def rule_shared(ctx: Ctx) -> None:
+    P = ctx.prog
     tainted = proxy_fields(ctx)
     n5 = 0
     for sub in P.subclasses("pipefunc.map._storage_array._base.StorageBase"):
@@ -242,7 +259,7 @@ def check(ctx: Ctx) -> None:  # noqa: C901, PLR0912, PLR0915
         val = norm(rets[-1].value) if rets else "?"
         n5 += 1
         if val != "True":
-            ctx.add("5-shared", sub.qualname, sub.loc, val == "False", f"{sub.name}: parent dumps (process-local storage)", key=f"dis {sub.name}")
+            ctx.tri("5-shared", sub.qualname, sub.loc, val == "False", False, f"{sub.name}: parent dumps (process-local storage)", "", f"{sub.name}.dump_in_subprocess returns `{val}`", key=f"dis {sub.name}")
             continue
         dmp = P.find_method(sub.qualname, "dump")
         file_backed = dmp is not None and ctx.effects.has(dmp.qualname, FS_WRITE)
@@ -254,31 +271,40 @@ def check(ctx: Ctx) -> None:  # noqa: C901, PLR0912, PLR0915
                 for name, meth in c.methods.items():
                     if name == "__init__":
                         continue
-                    for s in walk_no_nested(meth.node):
-                        tg = s.targets if isinstance(s, ast.Assign) else ([s.target] if isinstance(s, (ast.AnnAssign, ast.AugAssign)) else [])
+                    for s_ in walk_no_nested(meth.node):
+                        tg = s_.targets if isinstance(s_, ast.Assign) else ([s_.target] if isinstance(s_, (ast.AnnAssign, ast.AugAssign)) else [])
                         for t in tg:
                             if isinstance(t, ast.Attribute) and norm(t.value) == "self" and t.attr == fld:
-                                ctx.add("5-shared", meth, s, False, f"`{norm(s)[:60]}` rebinds self.{fld}, which is the manager proxy shared with the workers in {sub.name}: later worker dumps go to per-process copies and are lost", key=f"rebind {sub.name}.{fld}")
+                                ctx.add("5-shared", meth, s_, False, f"`{norm(s_)[:60]}` rebinds self.{fld}, which is the manager proxy shared with the workers in {sub.name}: later worker dumps go to per-process copies and are lost", key=f"rebind {sub.name}.{fld}")
             ctx.add("5-shared", sub.qualname, sub.loc, True, f"{sub.name}: analysed methods for rebinding of self.{fld}", key=f"scan {sub.name}.{fld}")
     ctx.floor("5-shared", n5, 3)
 
-    # ------------------------------------------------------------ 6 executor
+
+def rule_executor(ctx: Ctx) -> None:
+    P = ctx.prog
     ef = P.func(f"{RUN}._executor_for_func")
     cfg = ctx.cfg(ef)
     rets = set(cfg.nodes(lambda s: isinstance(s, ast.Return)))
     ok = cfg.must_pass(ENTRY, EXIT, rets, normal_only=True)
     ctx.add("6-executor", ef, ef.node, ok, "every normal path returns explicitly (otherwise raises)" if ok else "_executor_for_func can fall off the end (None executor for a parallel run)", key="total")
-    tests = [norm(s.test) for s in ef.node.body if isinstance(s, ast.If)]
-    ok = tests == ["executor is None", "func.output_name in executor", "'' in executor"]
-    ctx.add("6-executor", ef, ef.node, ok, "lookup: no executors -> None; own output name; then the '' default; else error" if ok else f"executor lookup order is {tests}", key="lookup-order")
+    ep = [p_ for p_ in ef.param_names() if "executor" in p_]
+    none_rets = [r for r in rets if cfg.stmt[r].value is None or (isinstance(cfg.stmt[r].value, ast.Constant) and cfg.stmt[r].value.value is None)]
+    d = Defs(ef)
+    bad_none = []
+    for r in none_rets:
+        facts = guard_facts(cfg, d, r)
+        if ep and not any(t == f"{ep[0]} is None" and pol for t, pol in facts):
+            bad_none.append(r)
+    ctx.add("6-executor", ef, cfg.stmt[bad_none[0]] if bad_none else ef.node, not bad_none, "None is returned only when no executors were given" if not bad_none else
+            "a missing executor entry yields None (the function silently runs without its executor) instead of an error", key="raises")
     from ..cfg import RAISE
 
-    last = ef.node.body[-1]
-    ok = isinstance(last, ast.Raise) and RAISE in cfg.reachable_from(ENTRY)
-    ctx.add("6-executor", ef, last, ok, "no executor for an output and no default -> error" if ok else "a missing executor entry no longer raises (the function silently runs without its executor)", key="raises")
-    me = P.func(f"{RUN}._maybe_executor")
-    ok = "executor is None and parallel" in norm(me.node) and "yield {'': new_executor}" in norm(me.node) and norm(me.node).count("yield") == 2
-    ctx.add("6-executor", me, me.node, ok, "a default process pool only when parallel and no executor was given" if ok else "_maybe_executor changed", key="default-pool")
+    ctx.tri("6-executor", ef, ef.node, RAISE in cfg.reachable_from(ENTRY), False, "no executor for an output and no default -> error", "", "no raise found", key="has-raise")
+
+
+def check(ctx: Ctx) -> None:
+    for rule in (rule_mirror, rule_barrier, rule_placement, rule_one_dump, rule_shared, rule_executor):
+        ctx.run(rule)
 
 
 R, D = "pipefunc/map/_run.py", "pipefunc/map/_storage_array/_dict.py"
